@@ -95,6 +95,8 @@ def gen_case(seed, shard, i):
         base, info = G.gen_plain(rnd, products_only=True, allow_take=False,
                                  allow_scalar=(i % 4 == 0), max_ranks=3,
                                  allow_rank0=(i % 5 == 0))
+        if i % 16 == 7:
+            return M.gen_flatten3_discordant(rnd), rnd
         if i % 16 == 15:
             base, info = G.gen_plain(rnd, products_only=True, allow_take=False, max_ranks=4)
             s = M.add_double_flatten(rnd, base, info)
